@@ -125,7 +125,7 @@ func (fr *frame) allocGrows(pre, post *Heap) {
 			continue
 		}
 		x := Sym(freshBinder("x"), SInt)
-		fr.vc.assume(True, Forall([]Binder{{x.Op, SInt}}, Implies(Select(a, x), Select(b, x)), []*Term{Select(b, x)}))
+		fr.vc.assume(True, Forall([]Binder{{x.Op, SInt}}, Implies(Select(a, x), Select(b, x)), []*Term{Select(b, x)}, []*Term{Select(a, x)}))
 	}
 }
 
@@ -255,7 +255,7 @@ func (fr *frame) applyContract(x ssa.Instruction, sig *types.Signature, fc *Func
 	fr.allocGrows(pre, post)
 	// results
 	var res *Val
-	if fc.Pure && fc.Extern && sig.Results().Len() == 1 && fr.w.sortOf(sig.Results().At(0).Type()) != "" {
+	if fc.Functional && sig.Results().Len() == 1 && fr.w.sortOf(sig.Results().At(0).Type()) != "" {
 		// functional: uninterpreted function of the (scalar) arguments
 		var as []*Term
 		var ss []Sort
@@ -266,6 +266,16 @@ func (fr *frame) applyContract(x ssa.Instruction, sig *types.Signature, fc *Func
 				break
 			}
 			t := a.T
+			if t.Sort == SSlice || t.Sort == SIface {
+				okArgs = false // mutable content: not a function of the header
+				break
+			}
+			if t.Sort == SInt {
+				if _, isPtr := types.Unalias(a.Ty).Underlying().(*types.Pointer); isPtr {
+					okArgs = false
+					break
+				}
+			}
 			as = append(as, t)
 			ss = append(ss, t.Sort)
 		}
@@ -285,6 +295,9 @@ func (fr *frame) applyContract(x ssa.Instruction, sig *types.Signature, fc *Func
 	}
 	if res == nil {
 		res = fr.freshResults(sig, st, name)
+	}
+	if fc.Extern {
+		vc.note("assumed contract: %s", fc.Key)
 	}
 	// postconditions
 	env := mkEnv(post, pre)
@@ -505,7 +518,7 @@ func (fr *frame) appendBuiltin(x ssa.Instruction, c *ssa.CallCommon, args []*Val
 		fr.fail(x.Pos(), "append to %s", st0)
 	}
 	key := fr.w.elemHeap(sl.Elem())
-	es := fr.w.sortOf(sl.Elem())
+	_ = sl
 	h := st.heap
 	E := h.get(key)
 	var n *Term
@@ -513,64 +526,66 @@ func (fr *frame) appendBuiltin(x ssa.Instruction, c *ssa.CallCommon, args []*Val
 	if t.T.Sort == SStr {
 		// append([]byte, string...)
 		n = StrLen(t.T)
-		srcAt = func(k *Term) *Term { return App("bytes", BV(8), StrArr(t.T), Add(StrOff(t.T), k)) }
+		srcAt = func(k *Term) *Term { return App("bytes", BV(8), StrArr(t.T), Idx(StrOff(t.T), k)) }
 	} else {
 		n = SlLen(t.T)
-		srcAt = func(k *Term) *Term { return Select(Select(E, SlArr(t.T)), Add(SlOff(t.T), k)) }
+		srcAt = func(k *Term) *Term { return Select(Select(E, SlArr(t.T)), Idx(SlOff(t.T), k)) }
 	}
 	ln, cp := SlLen(s.T), SlCap(s.T)
 	newLen := Add(ln, n)
 	fits := vc.define(name+"!fits", Le(newLen, cp))
-	// fresh array for the growing case
-	pre := st.heap
-	arr := fr.newArr(name+"!arr", st)
-	h = st.heap
-	ncap := vc.fresh(name+"!cap", SInt)
-	vc.assume(True, And(Le(newLen, ncap), Lt(ncap, IntLit(maxLen))))
 	if !fr.isDiscovery {
-		fr.safety("overflow", x, st, Lt(newLen, IntLit(maxLen)))
+		fr.safety("overflow", x, st, Le(newLen, maxIntT))
 	}
-	var Ein, Egrow *Term
-	if nv, isLit := n.IntVal(); isLit && nv <= 4 {
-		// unrolled stores
-		inner := Select(E, SlArr(s.T))
-		for k := int64(0); k < nv; k++ {
-			inner = Store(inner, Add(Add(SlOff(s.T), ln), IntLit(k)), srcAt(IntLit(k)))
-		}
-		Ein = Store(E, SlArr(s.T), inner)
-		na := vc.fresh(name+"!new", ArrSort(SInt, es))
-		i := Sym(freshBinder("i"), SInt)
-		vc.assume(True, Forall([]Binder{{i.Op, SInt}}, Implies(And(Le(IntLit(0), i), Lt(i, ln)),
-			Eq(Select(na, i), Select(Select(E, SlArr(s.T)), Add(SlOff(s.T), i)))), []*Term{Select(na, i)}))
-		g := na
-		for k := int64(0); k < nv; k++ {
-			g = Store(g, Add(ln, IntLit(k)), srcAt(IntLit(k)))
-		}
-		Egrow = Store(E, arr, g)
-	} else {
-		ni := vc.fresh(name+"!inpl", ArrSort(SInt, es))
-		j := Sym(freshBinder("j"), SInt)
-		base := Add(SlOff(s.T), ln)
-		vc.assume(True, Forall([]Binder{{j.Op, SInt}}, Eq(Select(ni, j),
-			Ite(And(Le(base, j), Lt(j, Add(base, n))), srcAt(Sub(j, base)), Select(Select(E, SlArr(s.T)), j))), []*Term{Select(ni, j)}))
-		Ein = Store(E, SlArr(s.T), ni)
-		na := vc.fresh(name+"!new", ArrSort(SInt, es))
-		i := Sym(freshBinder("i"), SInt)
-		vc.assume(True, Forall([]Binder{{i.Op, SInt}}, And(
-			Implies(And(Le(IntLit(0), i), Lt(i, ln)), Eq(Select(na, i), Select(Select(E, SlArr(s.T)), Add(SlOff(s.T), i)))),
-			Implies(And(Le(ln, i), Lt(i, newLen)), Eq(Select(na, i), srcAt(Sub(i, ln))))), []*Term{Select(na, i)}))
-		Egrow = Store(E, arr, na)
-	}
-	// appending nothing to a nil slice stays nil; Go also returns s itself when n == 0
 	zeroN := Eq(n, IntLit(0))
 	if !fr.isDiscovery {
-		// in-place write must respect the frame
+		// an in-place write must respect the frame
 		fr.frameCheckCond(key, SlArr(s.T), And(fits, Not(zeroN)), st, x)
 	}
-	_ = pre
-	st.heap = h.set(key, vc.define(name+"!E", Ite(zeroN, E, Ite(fits, Ein, Egrow))))
-	res := Ite(zeroN, s.T, Ite(fits, MkSlice(SlArr(s.T), SlOff(s.T), newLen, cp), MkSlice(arr, IntLit(0), newLen, ncap)))
-	return &Val{T: vc.define(name, res), Ty: st0}
+	// Axiomatic characterisation: r and E' are fresh, constrained by facts.
+	arr := fr.newArr(name+"!arr", st)
+	h = st.heap
+	r := vc.fresh(name, SSlice)
+	E2 := vc.fresh(name+"!E", fr.w.heapSort[key])
+	g := st.reach
+	vc.assume(True, vc.wfTerm(r, st0, nil, nil))
+	vc.assume(g, Eq(SlLen(r), newLen))
+	vc.assume(g, Implies(zeroN, And(Eq(r, s.T), Eq(E2, E))))
+	nz := Not(zeroN)
+	vc.assume(g, Implies(And(nz, fits), And(Eq(SlArr(r), SlArr(s.T)), Eq(SlOff(r), SlOff(s.T)), Eq(SlCap(r), cp))))
+	vc.assume(g, Implies(And(nz, Not(fits)), And(Eq(SlArr(r), arr), Eq(SlOff(r), IntLit(0)))))
+	relem := func(k *Term) *Term { return Select(Select(E2, SlArr(r)), Idx(SlOff(r), k)) }
+	{
+		k := Sym(freshBinder("k"), SInt)
+		vc.assume(g, Forall([]Binder{{k.Op, SInt}}, Implies(And(Le(IntLit(0), k), Lt(k, ln)),
+			Eq(relem(k), Select(Select(E, SlArr(s.T)), Idx(SlOff(s.T), k)))), []*Term{relem(k)}))
+	}
+	if nv, isLit := n.IntVal(); isLit && nv <= 4 {
+		for k := int64(0); k < nv; k++ {
+			vc.assume(g, Eq(relem(Add(ln, IntLit(k))), srcAt(IntLit(k))))
+		}
+	} else {
+		k := Sym(freshBinder("k"), SInt)
+		vc.assume(g, Forall([]Binder{{k.Op, SInt}}, Implies(And(Le(IntLit(0), k), Lt(k, n)),
+			Eq(relem(Add(ln, k)), srcAt(k))), []*Term{srcAt(k)}))
+		j := Sym(freshBinder("j"), SInt)
+		vc.assume(g, Forall([]Binder{{j.Op, SInt}}, Implies(And(Le(ln, j), Lt(j, newLen)),
+			Eq(relem(j), srcAt(Sub(j, ln)))), []*Term{relem(j)}))
+	}
+	{
+		a := Sym(freshBinder("a"), SInt)
+		vc.assume(g, Forall([]Binder{{a.Op, SInt}}, Implies(Not(Eq(a, SlArr(r))), Eq(Select(E2, a), Select(E, a))), []*Term{Select(E2, a)}))
+		j := Sym(freshBinder("j"), SInt)
+		lo, hi := Idx(SlOff(s.T), ln), Idx(SlOff(s.T), newLen)
+		cur := Select(Select(E2, SlArr(s.T)), j)
+		vc.assume(g, Implies(And(nz, fits), Forall([]Binder{{j.Op, SInt}}, Implies(Or(Lt(j, lo), Ge(j, hi)),
+			Eq(cur, Select(Select(E, SlArr(s.T)), j))), []*Term{cur})))
+	}
+	// prefix equality as a named fact (used by the fold congruences)
+	pe := vc.prefEq(key)
+	vc.assume(g, App(pe, SBool, E2, r, E, s.T, ln))
+	st.heap = h.set(key, E2)
+	return &Val{T: r, Ty: st0}
 }
 
 // ---------------------------------------------------------------- frames
